@@ -3,7 +3,9 @@
    /repo's working tree on every run: G_CastRules (tools/translate/t_CastRules.py: Cast_Helper_Inner, the verify_type
    functions, Data's mutable pointer) and G_ConstRules (tools/translate/t_ConstRules.py: the guards of Equation_AST_Node /
    Prefix_AST_Node, where Boxed_Number takes its in-place pointer from, Handle_Return, the first-parameter forms of the
-   stdlib wrappers).
+   stdlib wrappers; the host entry points chaiscript::const_var / var and what they hand to Boxed_Value's constructor; the
+   global registration functions and their constness test; how add_function boxes function objects; every function registered
+   under an assignment-like name in bootstrap.hpp, with the tests ptr_assign / unknown_assign make before rebinding).
 
    Model (ConstDefs.v): C++ objects are cells; every Boxed_Value::Data record points at one, with a const flag; script
    names are bound to Data records. A const object is an object all of whose Data records are const ([protected]).
@@ -12,8 +14,8 @@
    Known deviations on the real code, reported by the check as findings, are outside these statements: elements of a const
    std::vector<Boxed_Value> are separate non-const objects; a const arithmetic value passed to a shared_ptr<T> /
    reference_wrapper<T> / other-arithmetic-type parameter is replaced by a converted temporary (result RTemp below). *)
-From Coq Require Import ZArith List Bool.
-From ChaiV Require Import DispatchDefs DispatchProofs DispatchTheorems ConstDefs ConstProofs ConstTheorems.
+From Coq Require Import String ZArith List Bool.
+From ChaiV Require Import DispatchDefs DispatchProofs DispatchTheorems ConstDefs ConstSpecRun ConstProofs ConstTheorems.
 From ChaiV.Gen Require Import G_CastRules G_ConstRules.
 Import ListNotations.
 
@@ -75,6 +77,77 @@ Proof.
 Qed.
 Print Assumptions C07_immutable.
 
+(* ---- host entry points -------------------------------------------------------------------------------------------- *)
+
+(* every host entry point whose name starts with const_ (the four chaiscript::const_var overloads: value, pointer, shared_ptr,
+   reference_wrapper) yields a Boxed_Value whose const flag is set, whether or not the C++ type it was given is const *)
+Theorem C07_const_entry_points :
+  forall e tconst, In e (cr_entries gen_crules) -> prefix "const_" (en_name e) = true -> entry_const e tconst = true.
+Proof. intros. eapply const_entry_const; eauto using gen_entries_ok. Qed.
+Print Assumptions C07_const_entry_points.
+
+(* every regenerated entry point gives the constness the specification used by the oracle demands (const_* : always; otherwise
+   the constness of the C++ type it is given: var(std::cref(x)), var((const T * )p), shared_ptr<const T> are const, var(std::ref(x)) is not) *)
+Theorem C07_entry_points_meet_spec :
+  forall e tconst, In e (cr_entries gen_crules) -> entry_const e tconst = source_const (en_name e) tconst.
+Proof. exact gen_entries_meet_spec. Qed.
+Print Assumptions C07_entry_points_meet_spec.
+
+(* function objects reached by name (script `def`s, functions the host added) are boxed by a const_* entry point *)
+Theorem C07_function_objects_const :
+  exists e, find_entry gen_crules (fst (cr_fnobj gen_crules)) (snd (cr_fnobj gen_crules)) = Some e /\ forall tc, entry_const e tc = true.
+Proof. apply fnobj_const. exact gen_entries_ok. Qed.
+Print Assumptions C07_function_objects_const.
+
+(* add_global_const (every registration function with _const in its name) accepts only values whose const flag is set *)
+Theorem C07_const_registration :
+  forall r d, In r (cr_regs gen_crules) -> contains "_const" (rg_name r) = true -> reg_accepts r d = true -> d_const d = true.
+Proof. intros. eapply const_registration; eauto using gen_entries_ok. Qed.
+Print Assumptions C07_const_registration.
+
+(* a C++ object l that the host shares only through entry points yielding const - any number of times, before or between
+   script commands is covered by applying this to the store reached so far - : after sharing it once more under the name x by a
+   const_* entry point, the name denotes l (or, for const_var of a value, a fresh object with l's value) as const, and whatever
+   program runs next, l keeps its value, every Data record of l stays const, and every attempt aimed at l ends in an error (or on
+   a converted temporary) *)
+Theorem C07_shared_const_immutable :
+  forall e tc sh ar l x s p s' outs,
+    In e (cr_entries gen_crules) -> prefix "const_" (en_name e) = true ->
+    l < length (s_cells s) -> protected l s ->
+    run gen_crules gen_rules (share s e tc sh ar l x) p = (s', outs) ->
+    (exists h d, data_of (share s e tc sh ar l x) x = Some (h, d) /\ d_const d = true
+                 /\ d_loc d = (if en_copies e then length (s_cells s) else l) /\ cell (share s e tc sh ar l x) (d_loc d) = cell s l)
+    /\ cell s' l = cell s l /\ protected l s'
+    /\ Forall (fun o => o_target o = Some l -> o_attempt o = true -> o_result o = RErr \/ o_result o = RTemp) outs.
+Proof.
+  intros e tc sh ar l x s p s' outs Hin Hpre Hl Hp Hrun.
+  pose proof (const_entry_const gen_crules e tc gen_entries_ok Hin Hpre) as Hc.
+  destruct (share_data s e tc sh ar l x) as (h & d & Hd & Hdc & _ & Hloc & Hcell & Hold).
+  destruct (share_protected s e tc sh ar l x l Hl Hp (fun _ => or_introl Hc)) as [Hl' Hp'].
+  destruct (run_immutable gen_crules gen_rules gen_crules_ok gen_rules_ok gen_null_when_const p l _ s' outs (conj Hl' Hp') Hrun)
+    as ((_ & Hp'') & Hcl & _ & Ha).
+  split; [exists h, d; rewrite Hdc, Hc; auto|].
+  split; [rewrite Hcl; apply Hold; exact Hl|]. auto.
+Qed.
+Print Assumptions C07_shared_const_immutable.
+
+(* ---- functions registered under assignment-like names ------------------------------------------------------------- *)
+
+(* every function registered in bootstrap.hpp under `=`, `+=`, ... `++`, `--` - Boxed_Number's in-place operations, the
+   Assignable_Function `=`, and ptr_assign / unknown_assign, which take the left operand as a Boxed_Value and rebind it - gets no
+   mutable access to, and does not rebind, a value whose const flag is set; the same for every stdlib wrapper
+   (operators.hpp, bootstrap_stl.hpp) *)
+Theorem C07_assign_functions_reject_const :
+  (forall a d, In a (cr_assign gen_crules) -> d_const d = true -> In (fst a) assign_names /\ asg_access gen_crules gen_rules (snd a) d = false)
+  /\ (forall w d, In w (cr_wrappers gen_crules) -> d_const d = true -> form_grant gen_rules (snd (fst w)) d <> GMut).
+Proof.
+  split.
+  - intros a d Hin Hd. split; [apply gen_assign_names; exact Hin|].
+    eapply assign_rejects_const; eauto using gen_crules_ok, gen_rules_ok, gen_null_when_const.
+  - intros w d _ Hd. apply wrapper_rejects_const; auto using gen_rules_ok.
+Qed.
+Print Assumptions C07_assign_functions_reject_const.
+
 (* ---- non-vacuity: concrete states in which the hypotheses hold and the mechanisms are exercised ---- *)
 Definition ex_store : store :=
   (* cell 0 = 5 is const (a const_var), cell 1 = 7 is an ordinary variable *)
@@ -90,11 +163,13 @@ Definition ex_prog : list cmd :=
     CMut MOperFn 0 9;               (* `+=`(c, 4)     -> error *)
     CClone 4 0;                     (* var y = c *)
     CMut MEqArith 4 9;              (* y = 9          -> fine, y is a copy *)
-    CMut MEqArith 1 9 ].            (* v = 9          -> fine *)
+    CMut MEqArith 1 9;              (* v = 9          -> fine *)
+    CMut (MOperBoxed "=" 1 true) 0 0;   (* `=`(c, v) through ptr_assign: refused, c is const *)
+    CMut (MOperBoxed "=" 0 true) 1 0 ]. (* `=`(v, c): v now denotes c's object, as const *)
 Example C07_hypotheses_satisfiable :
   1 < length (s_cells ex_store) /\ protected 0 ex_store
   /\ List.map o_result (snd (run gen_crules gen_rules ex_store ex_prog))
-     = [RDone; RErr; RDone; RErr; RErr; RErr; RTemp; RErr; RDone; RMutated; RMutated]
+     = [RDone; RErr; RDone; RErr; RErr; RErr; RTemp; RErr; RDone; RMutated; RMutated; RErr; RRebound]
   /\ s_cells (fst (run gen_crules gen_rules ex_store ex_prog)) = [5%Z; 9%Z; 9%Z]
   /\ (forall b, b_const b = true -> inner_cast gen_rules FRef 10 b = DThrow EBadAny).
 Proof.
@@ -102,4 +177,22 @@ Proof.
   - intros h d Hn Hl. destruct h as [|[|h]]; cbn in Hn; try (destruct h; discriminate); injection Hn as <-; cbn in *; congruence.
   - split; [vm_compute; reflexivity|]. split; [vm_compute; reflexivity|].
     intros b Hb. unfold inner_cast. cbn. rewrite Hb. reflexivity.
+Qed.
+
+(* sharing through the regenerated entry points: const_var(std::ref(x)) of a non-const x is const and does not copy, const_var(value)
+   copies, var(std::ref(x)) is not const, var(std::cref(x)) is; add_global_const takes the first and refuses the third *)
+Local Open Scope string_scope.
+Example C07_entry_points_exercised :
+  (exists e, nth_error (cr_entries gen_crules) 3 = Some e /\ en_name e = "const_var" /\ en_arg e = EaRefWrap /\ prefix "const_" (en_name e) = true
+             /\ entry_const e false = true /\ en_copies e = false
+             /\ s_cells (fst (run gen_crules gen_rules (share ex_store e false false true 1 7) [CMut MEqArith 7 9; CMut MEqArith 1 9])) = [5%Z; 9%Z]
+             /\ List.map o_result (snd (run gen_crules gen_rules (share ex_store e false false true 1 7) [CMut MEqArith 7 9; CMut MEqArith 1 9])) = [RErr; RMutated])
+  /\ (exists e, nth_error (cr_entries gen_crules) 4 = Some e /\ en_name e = "var" /\ entry_const e false = false /\ entry_const e true = true)
+  /\ List.map (fun r => (rg_name r, reg_accepts r (mkdata 0 true false true true), reg_accepts r (mkdata 0 false false true true))) (cr_regs gen_crules)
+     = [("Module::add_global_const", true, false); ("Dispatch_Engine::add_global_const", true, false); ("Dispatch_Engine::add_global_no_throw", true, true);
+        ("Dispatch_Engine::add_global", true, true); ("Dispatch_Engine::set_global", true, true)].
+Proof.
+  split; [eexists; split; [reflexivity|]; vm_compute; repeat split; reflexivity|].
+  split; [eexists; split; [reflexivity|]; vm_compute; repeat split; reflexivity|].
+  vm_compute. reflexivity.
 Qed.
